@@ -13,7 +13,16 @@ import (
 var vpAPI map[string]intrinsicFn
 
 func init() {
-	vpAPI = map[string]intrinsicFn{
+	if vpAPI == nil {
+		vpAPI = map[string]intrinsicFn{}
+	}
+	for k, v := range vpAPIBase() {
+		vpAPI[k] = v
+	}
+}
+
+func vpAPIBase() map[string]intrinsicFn {
+	return map[string]intrinsicFn{
 		"vpU8":           func(e *Engine, st *State, fn *ssa.Function, a []Value, s ssa.Instruction) []Outcome { return vpScalar(e, st, "u8", 8) },
 		"vpU16":          func(e *Engine, st *State, fn *ssa.Function, a []Value, s ssa.Instruction) []Outcome { return vpScalar(e, st, "u16", 16) },
 		"vpU32":          func(e *Engine, st *State, fn *ssa.Function, a []Value, s ssa.Instruction) []Outcome { return vpScalar(e, st, "u32", 32) },
